@@ -1015,7 +1015,13 @@ where
         let mom_plus = mom_prime.clone();
         let grad_minus = grad_prime.clone();
         let grad_plus = grad_prime.clone();
-        let alpha_prime = T::min(T::one(), (joint - joint_0).exp());
+        // A leaf of undefined (NaN) energy is a rejection: `min(1, NaN)` would count it as a
+        // perfect acceptance and let dual averaging drive the step size up without bound.
+        let alpha_prime = if joint.is_nan() {
+            T::zero()
+        } else {
+            T::min(T::one(), (joint - joint_0).exp())
+        };
         let n_alpha_prime = 1_usize;
         (
             position_minus,
